@@ -365,6 +365,47 @@ func (e *exitInv) After(m *Machine, a *Action, o Outcome) error {
 			}
 		}
 	}
+	// a negative native-restaking adjustment first takes the withdrawable balance, then the
+	// pending records of that staker and asset: their amounts owed shrink by exactly what the
+	// withdrawable balance could not cover (capped by what they hold)
+	if a.Kind == "nstUpdate" && a.Neg && o.OK {
+		sid, asset := m.StakerID(a.Actor, a.Asset), m.W.AssetIDs[a.Asset]
+		w := new(big.Int)
+		if r, ok := prev.Staker[sid][asset]; ok {
+			w = r.Withdrawable
+		}
+		rest := new(big.Int).Sub(amt(a.Amount), w)
+		if rest.Sign() < 0 {
+			rest.SetInt64(0)
+		}
+		held, reduced := new(big.Int), new(big.Int)
+		for _, pu := range prev.Undelegations {
+			if pu.Staker == sid && pu.Asset == asset {
+				held.Add(held, pu.Actual)
+				if cu, ok := curRecs[pu.Key]; ok {
+					reduced.Add(reduced, new(big.Int).Sub(pu.Actual, cu.Actual))
+				}
+			}
+		}
+		nrec := 0
+		for _, pu := range prev.Undelegations {
+			if pu.Staker == sid && pu.Asset == asset {
+				nrec++
+			}
+		}
+		if rest.Sign() > 0 && nrec >= 2 {
+			m.label("nst-decrease-reaching-2+-pending-records")
+		} else if rest.Sign() > 0 && nrec == 1 {
+			m.label("nst-decrease-reaching-1-pending-record")
+		}
+		want := rest
+		if held.Cmp(want) < 0 {
+			want = held
+		}
+		if reduced.Cmp(want) != 0 {
+			return violation("C03.I4.pending-slash", "negative NST adjustment of %s with withdrawable %s: pending records (holding %s) lost %s, expected %s", a.Amount, w, held, reduced, want)
+		}
+	}
 	// actual amounts never grow, amounts never change
 	for k, r := range e.model {
 		u, ok := curRecs[k]
